@@ -148,6 +148,8 @@ def gen_plan(rng, prop, run_index):
                   "kw": rng.random() < 0.3}
             if rng.random() < 0.3:
                 op["shape"] = rng.choice(["extra_first", "extra_last", "no_output"])
+            if rng.random() < 0.25:
+                op["same_object"] = True
             if tag > 1 and rng.random() < 0.3:
                 # history dependence: repeat an earlier pair exactly, or its values under permuted labels
                 op["like"] = rng.randint(1, tag - 1)
@@ -160,8 +162,11 @@ def gen_plan(rng, prop, run_index):
             ops.append({"op": "construct", "what": rng.choice(["validate", "pfi", "sage", "batch"])})
         else:
             ops.append({"op": "observe"})
+    cfg = {"metric": info, "parties": parties, "seed": rng.getrandbits(32)}
+    if rng.random() < 0.35:
+        cfg["churn"] = rng.randint(1, 3)
     return {"property": prop, "kind": "metric",
-            "config": {"metric": info, "parties": parties, "seed": rng.getrandbits(32)}, "ops": ops,
+            "config": cfg, "ops": ops,
             "rs0": rng.getrandbits(48)}
 
 
@@ -196,13 +201,33 @@ def run_metric_plan(plan):
 
     seams.reseed(plan.get("rs0", 1))
     log = []
-    metric = rec_metric_class(cls)(**info["args"])
-    initial = cls(**info["args"]).get()
+    if cfg.get("churn"):
+        # Other metric objects of both input kinds are validated and released before this run's metric exists: results
+        # must not depend on library objects created or used before, nor on object identities.  The metric of the OTHER
+        # input kind is released last, immediately before this run's metric is allocated (address reuse is likely).
+        other_kind = rm.MAE if info["dict_input"] else rm.CrossEntropy
+        tmp = None
+        for _ in range(cfg["churn"]):
+            for other in (cls, other_kind):
+                try:
+                    tmp = rec_metric_class(other)(**(info["args"] if other is cls else {}))
+                    validate_loss_function(tmp)
+                except Exception:  # noqa: BLE001
+                    pass
+        tmp = None
+    try:
+        metric = rec_metric_class(cls)(**info["args"])
+        initial = cls(**info["args"]).get()
+    except Exception as exc:  # noqa: BLE001
+        res["aborted"] = "setup %s: %s" % (type(exc).__name__, str(exc)[:80])
+        res["digest"] = h.hexdigest()
+        return res
     sign = -1.0 if info["bigger_is_better"] else 1.0
     model = _StubModel(info, seed)
     names = ["a", "b"]
     parties = []
     returned = []          # values returned to explainer parties through a recording wrapper
+    shared_pred = {}
 
     def make_party(kind):
         if kind in ("wrapper", "same_wrapper"):
@@ -309,12 +334,22 @@ def run_metric_plan(plan):
                         pred = {"aux": other}
                     probe("prediction_shape_" + shape)
                 if pk == "wrapper":
+                    if op.get("same_object"):
+                        # the caller reuses ONE dict object and mutates it in place between calls
+                        shared_pred.clear()
+                        shared_pred.update(pred)
+                        pred = shared_pred
+                        probe("same_dict_object_reused")
                     pred_before = copy.deepcopy(pred)
-                    got = obj(y_true=y, y_prediction=pred) if op.get("kw") else obj(y, pred)
-                    arg = pred if info["dict_input"] else pred.get("output", 0)
+                    arg = copy.deepcopy(pred) if info["dict_input"] else pred.get("output", 0)
                     fresh = cls(**info["args"])
-                    fresh.update(y_true=y, y_pred=arg)
+                    fresh.update(y_true=y, y_pred=arg)       # a pair the fresh metric rejects aborts the run (domain)
                     want = sign * fresh.get()
+                    try:
+                        got = obj(y_true=y, y_prediction=pred) if op.get("kw") else obj(y, pred)
+                    except Exception as exc:  # noqa: BLE001
+                        return viol("loss-raised", "loss(%r, %r) raised %s: %s although a fresh %s accepts the pair"
+                                    % (y, pred, type(exc).__name__, str(exc)[:100], info["name"]), i)
                     probe("wrapper_call")
                     if not same_value(got, want):
                         return viol("loss-value", "loss(%r, %r) returned %r; fresh %s reports %r, sign %+d"
